@@ -316,10 +316,20 @@ def do_history(case, rec, rng):
                            f"d{k}b": {"depth": np.array(ds, dtype=float), "values": vb.copy()}}
                 if rng.random() < 0.5:
                     entries = {kk: entries[kk] for kk in (f"d{k}a", f"i{k}", f"d{k}b")}
+                ds_b = ds
+                if tol is None and rng.random() < 0.6:
+                    # every log of the call states its own tolerance: a coarse one for the first depth log, the fine default for
+                    # the second, whose depths lie 0.2 below the first one's (inside the coarse tolerance, outside its own)
+                    entries[f"d{k}a"]["collocation_distance"] = 0.5
+                    ds_b = [f32(x + 0.2) for x in ds]
+                    entries[f"d{k}b"]["depth"] = np.array(ds_b, dtype=float)
+                    if rng.random() < 0.5:
+                        entries[f"d{k}b"]["collocation_distance"] = 1e-2
+                    rec.see("per-log-tolerances")
                 hole.add_data(entries, **kw)
                 given_int[f"i{k}"] = {tuple(x): v for x, v in zip(ft, vi.tolist())}
                 given_depth[f"d{k}a"] = dict(zip(ds, va.tolist()))
-                given_depth[f"d{k}b"] = dict(zip(ds, vb.tolist()))
+                given_depth[f"d{k}b"] = dict(zip(ds_b, vb.tolist()))
                 ops.append(("batch", n))
                 kinds.update({"depth", "interval"})
                 rec.see("batched-additions")
